@@ -39,18 +39,13 @@ class LTransactionError(TransactionError):
 
 
 def read_commitment(stream):
-    c = stream.read(1)
-    assert len(c) == 1
+    c = read_exact(stream, 1)
     if c == b"\x00":  # None
         return None
     if c == b"\x01":  # unconfidential
-        r = stream.read(8)
-        assert len(r) == 8
-        return int.from_bytes(r, "big")
+        return int.from_bytes(read_exact(stream, 8), "big")
     # confidential
-    r = stream.read(32)
-    assert len(r) == 32
-    return c + r
+    return c + read_exact(stream, 32)
 
 
 def write_commitment(c):
@@ -112,7 +107,7 @@ class Proof(EmbitBase):
     @classmethod
     def read_from(cls, stream):
         l = compact.read_from(stream)
-        data = stream.read(l)
+        data = read_exact(stream, l)
         return cls(data)
 
 
@@ -249,11 +244,13 @@ class LTransaction(Transaction):
     def read_vout(cls, stream, idx):
         """Returns a tuple TransactionOutput, tx_hash without storing the whole tx in memory"""
         h = hashlib.sha256()
-        h.update(stream.read(4))
+        h.update(read_exact(stream, 4))
         has_witness = False
-        flag = stream.read(1)
+        flag = read_exact(stream, 1)
         if flag == b"\x01":
             has_witness = True
+        elif flag != b"\x00":
+            raise TransactionError("Unknown transaction flags")
         h.update(b"\x00")
         num_vin = compact.read_from(stream)
         h.update(compact.to_bytes(num_vin))
@@ -272,20 +269,26 @@ class LTransaction(Transaction):
             if idx == i:
                 res = vout
             h.update(vout.serialize())
-        h.update(stream.read(4))
+        h.update(read_exact(stream, 4))
         if has_witness:
+            empty = True
             for i in range(num_vin):
-                TxInWitness.read_from(stream)
+                empty = TxInWitness.read_from(stream).is_empty and empty
             for i in range(num_vout):
-                TxOutWitness.read_from(stream)
+                empty = TxOutWitness.read_from(stream).is_empty and empty
+            if empty:
+                raise TransactionError("Superfluous witness record")
         return res, hashlib.sha256(h.digest()).digest()
 
     @classmethod
     def read_from(cls, stream):
-        ver = int.from_bytes(stream.read(4), "little")
+        ver = int.from_bytes(read_exact(stream, 4), "little")
         has_witness = False
-        if stream.read(1) == b"\x01":
+        flag = read_exact(stream, 1)
+        if flag == b"\x01":
             has_witness = True
+        elif flag != b"\x00":
+            raise TransactionError("Unknown transaction flags")
         num_vin = compact.read_from(stream)
         vin = []
         for i in range(num_vin):
@@ -294,7 +297,7 @@ class LTransaction(Transaction):
         vout = []
         for i in range(num_vout):
             vout.append(LTransactionOutput.read_from(stream))
-        locktime = int.from_bytes(stream.read(4), "little")
+        locktime = int.from_bytes(read_exact(stream, 4), "little")
         # something more
         if has_witness:
             for inp in vin:
@@ -302,7 +305,10 @@ class LTransaction(Transaction):
             # surj proofs
             for out in vout:
                 out.witness = TxOutWitness.read_from(stream)
-        return cls(version=ver, vin=vin, vout=vout, locktime=locktime)
+        res = cls(version=ver, vin=vin, vout=vout, locktime=locktime)
+        if has_witness and not res.has_witness:
+            raise TransactionError("Superfluous witness record")
+        return res
 
     def hash_issuances(self):
         h = hashlib.sha256()
@@ -397,10 +403,8 @@ class AssetIssuance(EmbitBase):
 
     @classmethod
     def read_from(cls, stream):
-        nonce = stream.read(32)
-        assert len(nonce) == 32
-        entropy = stream.read(32)
-        assert len(entropy) == 32
+        nonce = read_exact(stream, 32)
+        entropy = read_exact(stream, 32)
         amount_commitment = read_commitment(stream)
         token_commitment = read_commitment(stream)
         return cls(nonce, entropy, amount_commitment, token_commitment)
@@ -453,10 +457,10 @@ class LTransactionInput(TransactionInput):
 
     @classmethod
     def read_from(cls, stream):
-        txid = bytes(reversed(stream.read(32)))
-        vout = int.from_bytes(stream.read(4), "little")
+        txid = bytes(reversed(read_exact(stream, 32)))
+        vout = int.from_bytes(read_exact(stream, 4), "little")
         script_sig = Script.read_from(stream)
-        sequence = int.from_bytes(stream.read(4), "little")
+        sequence = int.from_bytes(read_exact(stream, 4), "little")
         is_pegin = False
         asset_issuance = None
         if vout != 0xFFFFFFFF:
@@ -531,16 +535,16 @@ class LTransactionOutput(TransactionOutput):
 
     @classmethod
     def read_from(cls, stream):
-        asset = stream.read(33)
+        asset = read_exact(stream, 33)
         blinded = False
         ecdh_pubkey = None
-        c = stream.read(1)
+        c = read_exact(stream, 1)
         if c != b"\x01":
-            value = c + stream.read(32)
+            value = c + read_exact(stream, 32)
         else:
-            value = int.from_bytes(stream.read(8), "big")
-        c = stream.read(1)
+            value = int.from_bytes(read_exact(stream, 8), "big")
+        c = read_exact(stream, 1)
         if c != b"\x00":
-            ecdh_pubkey = c + stream.read(32)
+            ecdh_pubkey = c + read_exact(stream, 32)
         script_pubkey = Script.read_from(stream)
         return cls(asset, value, script_pubkey, ecdh_pubkey)
